@@ -1,8 +1,15 @@
 package protocol
 
-import "fmt"
+import (
+	"fmt"
+	"sync"
+)
 
 var Connections map[string]*Monitor
+
+// connectionsMu guards Connections, tunnels register and unregister from
+// their own connection goroutines
+var connectionsMu sync.Mutex
 
 type Monitor struct {
 	Processor *Processor
@@ -14,6 +21,8 @@ const (
 )
 
 func RegisterTunnel(t *Tunnel, p *Processor) {
+	connectionsMu.Lock()
+	defer connectionsMu.Unlock()
 	verifHook("reg.begin", t)
 	defer verifHook("reg.end", t)
 	if Connections == nil {
@@ -27,12 +36,16 @@ func RegisterTunnel(t *Tunnel, p *Processor) {
 }
 
 func RemoveTunnel(t *Tunnel) {
+	connectionsMu.Lock()
+	defer connectionsMu.Unlock()
 	verifHook("unreg.begin", t)
 	defer verifHook("unreg.end", t)
 	delete(Connections, t.Id)
 }
 
 func Disconnect(id string) error {
+	connectionsMu.Lock()
+	defer connectionsMu.Unlock()
 	if Connections == nil {
 		return fmt.Errorf("%s connection does not exist", id)
 	}
